@@ -36,7 +36,39 @@ class Check(PropertyCheck):
 
     def generate(self, rng, n, tier):
         for i in range(n):
+            if i % 25 == 17:
+                yield Scenario(["new", f"mark gcloop {rng.randint(0, 10**6)}"], {"family": "gcloop", "accepted": 3, "kind": "solve", "ops": 6})
+                continue
             yield self.scenario(rng, tier, i)
+
+    def gc_loop_oracle(self, seed):
+        """A generate / solve / discard loop (instances of the same shape, other durations, each garbage before the next exists): at
+        every step the direct rules select an operation that is best by THEIR criterion on THE instance at hand."""
+        import gc
+        import jsl
+        from impl import build_instance
+        from job_shop_lib.dispatching.rules import dispatching_rule_factory
+        r = random.Random(seed)
+        J, P, M = r.randint(2, 4), r.randint(2, 3), r.randint(2, 3)
+        route = [[r.randrange(M) for _ in range(P)] for _ in range(J)]
+        names = {"mwkr": "most_work_remaining", "spt": "shortest_processing_time", "mor": "most_operations_remaining"}
+        res = []
+        for it in range(8):
+            jobs = [[([route[j][p]], r.randint(1, 9)) for p in range(P)] for j in range(J)]
+            inst = build_instance(jobs)
+            d = jsl.Dispatcher(inst)
+            token = r.choice(["mwkr", "mwkr", "spt", "mor"])
+            rule = dispatching_rule_factory(names[token])
+            while not d.schedule.is_complete():
+                op = rule(d)
+                res += self.check_selection(token, inst, d.schedule.schedule, None, op.operation_id,
+                                            f"loop iteration {it}, rule {token} on instance {jobs}")
+                if res:
+                    return res
+                d.dispatch(op, op.machines[0])
+            del inst, d, rule
+            gc.collect()
+        return res
 
     def rule_token(self, rng):
         if getattr(self, "_exact_only", False):
@@ -190,6 +222,8 @@ class Check(PropertyCheck):
     def oracle(self, impl, scenario, index, line, out, ctx):
         res = []
         ts = line.split()
+        if line.startswith("mark gcloop"):
+            return self.gc_loop_oracle(int(ts[2]))
         if ts[0] == "rule":
             if out == "raise":
                 v = oracles.View(impl.instance, impl.dispatcher.schedule.schedule)
